@@ -166,6 +166,12 @@ func (c *Chunker) Next() (uint64, []byte, error) {
 		m = len(c.buf)
 	}
 
+	// With min equal to max there is no room to look for a boundary, every
+	// chunk (but the last) is exactly max bytes long
+	if m <= int(c.min) {
+		return c.split(m, nil)
+	}
+
 	// Initialize the rolling hash window with the ChunkerWindowSize bytes
 	// immediately prior to min size
 	window := c.buf[c.min-ChunkerWindowSize : c.min]
